@@ -2,7 +2,7 @@
 // skip() of GaussianFilter / ParticleFilter subclasses (and through the steps / the state model).
 //
 //   skip <predKind> <exo> <corrKind> <seed> <n> <k> op op ...
-//       predKind: kf ukfa ukfg draw gpfkf      corrKind: kfc ukfc (Gaussian) | boot gpfc (particle)
+//       predKind: kf ukfa ukfg draw gpfkf draw2 (DrawParticles(state model, exogenous model))      corrKind: kfc ukfc (Gaussian) | boot gpfc (particle)
 //       op: L:<name>:<0|1>  (L = F filter, P prediction, C correction, M state model; ~ = empty name)
 //           p  predict on the running belief      c  correct on the running belief
 //   -> init/<flags>/<P>/<C>  then per op  r<1|0|T|E>/<flags>/<P>/<C>  |  p/<P>  |  c/<C>
@@ -149,6 +149,11 @@ static std::unique_ptr<GaussianPrediction> mkGPred(const std::string& kind, cons
 static std::unique_ptr<PFPrediction> mkPPred(const std::string& kind, const Data13& d, bool exo) {
     if (kind == "draw") return std::unique_ptr<PFPrediction>(new DrawParticles(std::unique_ptr<StateModel>(mkState<HState>(d, exo))));
     if (kind == "gpfkf") return std::unique_ptr<PFPrediction>(new GPFPrediction(mkGPred("kf", d, exo)));
+    // the two-argument constructor: the exogenous model is handed to the prediction, not to the state model
+    if (kind == "draw2") {
+        if (!exo) return std::unique_ptr<PFPrediction>(new DrawParticles(std::unique_ptr<StateModel>(mkState<HState>(d, false))));
+        return std::unique_ptr<PFPrediction>(new DrawParticles(std::unique_ptr<StateModel>(mkState<HState>(d, false)), std::unique_ptr<ExogenousModel>(new HExo(d.G, d.g))));
+    }
     throw vh::BadArgs("ppred");
 }
 static std::unique_ptr<GaussianCorrection> mkGCorr(const std::string& kind, const Data13& d) {
@@ -247,7 +252,7 @@ struct PartCase {
     ParticleSet cur;
     PartCase(const std::string& pk_, bool exo_, const std::string& ck_, uint64_t seed, long n, long k)
         : d(seed, n, k), exo(exo_), pk(pk_), ck(ck_), filt(mkPPred(pk_, d, exo_), mkPCorr(ck_, d, (unsigned)seed)),
-          twin_fx(mkPPred(pk_, d, false)), twin_fxexo(mkPPred(pk_, d, true)), twin_c(mkPCorr(ck_, d, (unsigned)seed)), cur(k, n) {
+          twin_fx(mkPPred(pk_ == "draw2" ? "draw" : pk_, d, false)), twin_fxexo(mkPPred(pk_ == "draw2" ? "draw" : pk_, d, true)), twin_c(mkPCorr(ck_, d, (unsigned)seed)), cur(k, n) {
         Rng r(seed ^ 0x55aa); fillPS(cur, r);
     }
     std::string flags() {
@@ -265,7 +270,7 @@ struct PartCase {
         bool in_same = samePS(in, cur);
         twin_fx->predict(in, r1); twin_fxexo->predict(in, r2);
         std::vector<std::pair<std::string, bool>> hits = {{"id", samePS(out, in)}, {"fx", samePS(out, r1)}, {"fxexo", samePS(out, r2)}};
-        if (pk == "draw") {
+        if (pk == "draw" || pk == "draw2") {
             // partial results of LinearStateModel::propagate followed by AdditiveStateModel::motion's noise
             MatrixXd z = noise_at(g_step, n, k);
             ParticleSet e(k, n), c(k, n), u(k, n); poisonPS(e); poisonPS(c); poisonPS(u);
@@ -278,7 +283,7 @@ struct PartCase {
         std::string lab = pick(hits);
         if (!in_same) lab += "+input-modified";
         if (advance) {
-            if (pk == "draw" && lab != "id") { out.mean() = cur.mean(); out.covariance() = cur.covariance(); }   // fields DrawParticles does not write
+            if ((pk == "draw" || pk == "draw2") && lab != "id") { out.mean() = cur.mean(); out.covariance() = cur.covariance(); }   // fields DrawParticles does not write
             cur = out;
         }
         return lab;
@@ -340,7 +345,7 @@ static std::string skip_case(Toks& t) {
     if (n < 1 || n > 6 || k < 1 || k > 8) throw vh::BadArgs("size");
     g_step = 0;
     if (pk == "kf" || pk == "ukfa" || pk == "ukfg") { GaussCase c(pk, exo, ck, seed, n, k); return runOps(c, t); }
-    if (pk == "draw" || pk == "gpfkf") { PartCase c(pk, exo, ck, seed, n, k); return runOps(c, t); }
+    if (pk == "draw" || pk == "gpfkf" || pk == "draw2") { PartCase c(pk, exo, ck, seed, n, k); return runOps(c, t); }
     throw vh::BadArgs("kind");
 }
 
